@@ -5,6 +5,15 @@ ALL = ["C%02d" % i for i in range(1, 21)]
 
 # id -> (level text, level note, technique)
 CLAIMED = {
+ "C07": ("The conservation sum is arithmetic over histories and is NOT decided. Decided structural pairing clauses (staking, core, core/state): (P1) no validator value is used twice on a path as the pre-image of a replacement, directly or through callees summarised as replacing a parameter (typestate stale-after-replace); (P2) teDeposit/teDelegationAdd on every return credited, refunded the value to the sender, or run pre-V5, and both handler registries cover the same actions; (P3) a withdrawal is paid under Finished==0, marked finished, amount = FinalBalance; (P4) every balance mutation outside EVM/state is a tabled site with counterpart, subsidy debit enters the total, gas priced with one GasPrice.",
+         "Trusted: go/types + go/ssa; tables in ycheck/rules_c07.go; integer residues are the reward code's business.",
+         "typestate (stale-after-replace) with bottom-up parameter summaries, all-paths-pass-edge exit analysis, confinement inventory"),
+ "C10": ("Decides structural necessary conditions of copy/commit exactness (core/state, core/types): (K1) 13 copy functions initialise every field of their type on the copy or the field is a tabled exclusion, reference-typed fields are not shared by plain assignment unless tabled, and no mutating big.Int method has a shared balance pointer as receiver; (K2) every Trie field of StateDB is opened, copied via CopyTrie, hashed and committed; (K4) Commit references and state sync schedules Root, CodeHash, DelegationsHash. K3 (order-free flush) is decided by C06.N1/C14.E3. Reopen equality as values is not decided.",
+         "Trusted: go/types + go/ssa; exclusion tables in ycheck/rules_c10.go.",
+         "field-coverage analysis of copy functions over SSA (constructor-following), shallow-share detection, receiver provenance of big.Int mutators"),
+ "C14": ("Round-trip equality and accept-implies-canonical are value properties and are NOT decided. Decided (all packages with custom codecs, package rlp): (E1) positional agreement of list-literal encoders with struct decoders; (E2) every field an encoder reads (all rlp-visible fields for carrier structs) is restored by the decoder; (E3) no EncodeRLP depends on map iteration order; (E5) allocations sized by decoded lengths are dominated by a successful Kind(), Kind bounds sizes by remaining input, unlimited streams outside rlp are tabled.",
+         "Trusted: go/types + go/ssa; reflection codecs of package rlp are positional and skip unexported / rlp:\"-\" fields.",
+         "sibling codec comparison over SSA (element/field descriptors), map-order classifier, dominance gates in package rlp, confinement of unlimited streams"),
  "C06": ("Decides structural necessary conditions of deterministic execution over the ~1000 repository functions reachable from block execution in the VTA call graph: (N1) every map range there is order-free by a closed idiom list (no early non-error exit, no log emission, appended slices sorted or only logged before use), reviewed exceptions tabled; (N2) chain head, wall clock, random sources and environment are read only to be logged (forward slice to logging sinks); (N3) builder and importer call the same ApplyTransaction/EndBlock, isSeal only selects slashing/replaySlashing, ValidateState compares all commitments; (N4) goroutines under execution are tabled. It does not decide equality of two runs as values.",
          "Trusted: go/types + go/ssa + callgraph/vta of x/tools v0.29.0 (over-approximating calls between repository functions); logging is a sink.",
          "whole-program reachability (VTA call graph) + map-iteration order-sensitivity classifier + forward taint slices to logging sinks"),
